@@ -1,5 +1,5 @@
 """Property -> rules mapping."""
-from .rules import attrs, cfg, conv, det, errsel, fmtdec, fmtparse, hdr, hyg, idx, ops, rawid, shape, split
+from .rules import attrs, cfg, conv, det, errsel, fmtdec, fmtparse, hdr, hyg, idx, ops, panics, rawid, shape, split
 
 PROPS = {}
 
@@ -108,3 +108,5 @@ prop("C14", [shape.rule_delegation, errsel.rule_view_defs, idx.rule_idx_space], 
 prop("C16", [split.rule_split_table, split.rule_alias_test, fmtdec.rule_tpl_verb], meta={"explanation": "wip"})
 
 prop("C17", [attrs.rule_legacy_attr_parser, attrs.rule_typed_attrs, attrs.rule_attr_positions, conv.rule_merge_symmetry], meta={"explanation": "wip"})
+
+prop("C18", [panics.rule_panic_ledger, panics.rule_closed_sets, panics.rule_termination, fmtparse.rule_peg_combinators, fmtparse.rule_peg_tables, fmtdec.rule_traversal, split.rule_scanner_progress, idx.rule_idx_space, rawid.rule_raw_id], meta={"explanation": "wip"})
